@@ -12,11 +12,13 @@ Per run:
   5. evaluate the executable monitors (extracted from Coq) on the REAL traces;
   6. verdict, shrinking, evidence.
 """
+import atexit
 import concurrent.futures
 import json
 import os
 import random
 import re
+import shutil
 import subprocess
 import sys
 import time
@@ -33,7 +35,9 @@ PINS = {
             "C14_reply_wake_hits_handler", "C14_piped_partial"],
 }
 WDIR = os.path.join(vlib.ROOT, "harness", "w")
-WORK = os.path.join(vlib.OUT, "w")
+# case files of concurrent runs (other properties, scratch-repo runs of other people) must not collide
+WORK = os.path.join(vlib.OUT, "w", "run-%d" % os.getpid())
+atexit.register(lambda: shutil.rmtree(WORK, ignore_errors=True))
 
 
 # ----------------------------------------------------------------------------------------------
@@ -55,9 +59,37 @@ def write_cargo_toml():
 
 
 def build_real():
-    write_cargo_toml()
-    ok, bdir, log = vlib.harness_build("w", shim=True, bins=["conc_drv"])
-    return ok, os.path.join(bdir, "conc_drv"), log
+    """Build conc_drv against vlib.REPO.  The unchanged repo uses harness/w + the shared target dir; a scratch repo
+    (VERIF_REPO) gets its own copy of the crate and its own target dir under .cache, so that concurrent runs against
+    different repos never exchange Cargo.toml / binaries."""
+    default_repo = os.path.realpath(vlib.REPO) == os.path.realpath("/repo")
+    if default_repo:
+        write_cargo_toml()
+        ok, bdir, log = vlib.harness_build("w", shim=True, bins=["conc_drv"])
+        return ok, os.path.join(bdir, "conc_drv"), log
+    import hashlib
+    import shutil
+    tag = hashlib.sha256(os.path.realpath(vlib.REPO).encode()).hexdigest()[:10]
+    cdir = os.path.join(vlib.CACHE, "harness-w-" + tag)
+    tdir = os.path.join(vlib.CACHE, "target-w-" + tag)
+    with vlib.Lock("cargo-w-" + tag):
+        os.makedirs(os.path.join(cdir, "src", "bin"), exist_ok=True)
+        for root, _dirs, files in os.walk(os.path.join(WDIR, "src")):
+            rel = os.path.relpath(root, WDIR)
+            os.makedirs(os.path.join(cdir, rel), exist_ok=True)
+            for f in files:
+                vlib.write_if_changed(os.path.join(cdir, rel, f), open(os.path.join(root, f)).read())
+        tmpl = open(os.path.join(WDIR, "Cargo.toml.in")).read()
+        vlib.write_if_changed(os.path.join(cdir, "Cargo.toml"), tmpl.replace("@REPO@", os.path.abspath(vlib.REPO)))
+        try:
+            shutil.copy(os.path.join(vlib.REPO, "Cargo.lock"), os.path.join(cdir, "Cargo.lock"))
+        except OSError:
+            pass
+        env = {"RUSTFLAGS": "--cfg %s" % vlib.GUARD,
+               "UAZU_STAKKER_VERIF_STD": os.path.join(vlib.ROOT, "harness", "shim", "verif_std.rs")}
+        rc, log = vlib.run(["cargo", "build", "--offline", "--target-dir", tdir, "--bin", "conc_drv"],
+                           cwd=cdir, env=env, timeout=1500)
+    return rc == 0, os.path.join(tdir, "debug", "conc_drv"), log
 
 
 def translate():
